@@ -159,9 +159,21 @@ def family_signal(draw, min_n=3, max_n=400, families=FAMILIES, small_bias=True):
 
 
 def sig_of(desc):
+    """The signal a case describes. An optional 'dtype' stores it as float32 / int64 / int16 (integer dtypes hold the
+    signal scaled by 100 and rounded, like raw ADC counts); reference models work on sig.astype(float)."""
     if 'x' in desc:
-        return np.asarray(desc['x'], dtype=float)
-    return make_signal(desc['family'], desc['n'], desc['k'], desc['p1'], desc['p2'])
+        x = np.asarray(desc['x'], dtype=float)
+    else:
+        x = make_signal(desc['family'], desc['n'], desc['k'], desc['p1'], desc['p2'])
+    dt = desc.get('dtype', 'f8')
+    if dt == 'f4':
+        return x.astype(np.float32)
+    if dt in ('i8', 'i2'):
+        return np.clip(np.round(x * 100), -30000, 30000).astype(np.int64 if dt == 'i8' else np.int16)
+    return x
+
+
+DTYPES = ['f8', 'f8', 'f8', 'f8', 'f8', 'f4', 'i8', 'i2']
 
 
 def elementwise_signal(min_n=3, max_n=64, levels=False):
@@ -224,7 +236,8 @@ def sift_signal(max_n=400):
     @st.composite
     def fam(draw, families, lengths):
         return {'family': draw(st.sampled_from(list(families))), 'n': draw(st.sampled_from(lengths)),
-                'k': draw(st.integers(0, 2**32 - 1)), 'p1': draw(st.floats(0, 1)), 'p2': draw(st.floats(0, 1))}
+                'k': draw(st.integers(0, 2**32 - 1)), 'p1': draw(st.floats(0, 1)), 'p2': draw(st.floats(0, 1)),
+                'dtype': draw(st.sampled_from(DTYPES))}
     return st.one_of(
         fam(osc, lens), fam(osc, lens), fam(osc, lens),
         fam(('noise', 'noise', 'levels', 'walk'), [6, 7, 8, 9, 10]),
